@@ -1000,6 +1000,8 @@ def _eval_case(ctx: Ctx, c: dict):
             elif za is not None and not zones_equal(za, zb):
                 ctx.fail(f"C09/include/{what}/zones-differ",
                          f"the $INCLUDE spelling {text!r} {files!r} and the {what} spelling {tb!r} load to different zones", rep)
+        if c.get("refused") and (za is not None or not (la or "").startswith("err SyntaxError")):
+            ctx.fail("C09/include/malformed-line-accepted", f"{la} on a malformed $INCLUDE line: {text!r}", rep)
         if c.get("undefined_ttl") and za is not None:
             ctx.fail("C09/include/undefined-ttl-accepted", f"a line without any TTL to inherit was accepted: {text!r} {files!r}", rep)
         if za is not None:
@@ -1982,10 +1984,19 @@ def generate(ctx: Ctx, scale: int, rng, thorough=False):
         if ii % 17 == 16:
             fl = fl[:-1]          # the last file does not exist
             explicit = inline = None
+        bad = None
+        if ii % 6 == 5:
+            # a malformed $INCLUDE line after everything else: an origin that is not an identifier, tokens after the
+            # origin, a quoted file name with an origin and trailing junk -- all refused
+            f0 = list(files)[0]
+            bad = rng.choice([f'$INCLUDE {f0} "quoted.origin"', f"$INCLUDE {f0} inc extra", f"$INCLUDE {f0} inc 300 IN A 10.0.0.1",
+                              f'$INCLUDE "{f0}" inc ( junk', f"$INCLUDE {f0} \\# 0"])
+            text = text + bad + "\nlast 60 IN A 192.0.2.99\n"
+            explicit = inline = None
         c = {"kind": "include", "origin": hexl(origin), "rel": rel, "allow": allow, "text": l1(text).hex(), "files": fl,
              "explicit": None if explicit is None else l1("\n".join(explicit) + "\n").hex(),
              "inline": None if inline is None else l1("\n".join(inline) + "\n").hex(),
-             "undefined_ttl": bool(ic.undefined_ttl) and ii % 17 != 16}
+             "undefined_ttl": bool(ic.undefined_ttl) and ii % 17 != 16 and bad is None, "refused": bad is not None and ii % 17 != 16}
         ctx.case(("include", text, tuple(map(tuple, fl)), rel, allow), sample=c)
         ctx.count("include.files%d" % max(1, min(3, len(files))))
         eval_case(ctx, c)
